@@ -412,10 +412,10 @@ def check(plan, r):
         if f == "@restart": restarted = True
         if op.get("checked"):
             if k in fault_ops and not ok:
-                st("fault_fired_and_failed"); fault_failed.append((f, fault_ops[k][0]["k"], c_role(fault_ops[k][0]["path"])))
+                st("fault_fired_and_failed"); fault_failed.append((f, fault_ops[k][0]["k"], c_role(fault_ops[k][0]["path"]), op))
                 # restart-time manifestations cannot be tied to one of several faulted calls by observation; they are attributed to the one that
                 # physically changes file contents (a failed write/ftruncate) if there is one, else to the earliest (documented in DESIGN 10)
-                fault_failed.sort(key=lambda x: 0 if (x[1] in ("write", "ftruncate") or (x[1] == "unlock" and x[2] in ("database", "journal"))) else 1)      # below SQLite a failed unlock is the one fault after which the commit has nevertheless happened
+                fault_failed.sort(key=lambda x: -1 if (x[1] == "unlock" and x[2] in ("database", "journal")) else 0 if x[1] in ("write", "ftruncate") else 1)      # below SQLite a failed unlock is the one fault after which the commit has nevertheless happened
             if not ok and prev is not None and not restarted:
                 pending = (k, op, ret, prev)
         w.apply(pid, op, ret)
@@ -448,7 +448,8 @@ def check(plan, r):
                         for ref in view:
                             o = w.objs.get(ref)
                             if o is not None and not o.alive:
-                                viols.append(_v("C09.object_appeared", "after the restart object %s exists although the call that would have created it failed (or it was destroyed)" % ref, call="restart", op=kk, manifestation="object_appeared_after_restart", after_faulted_failure=bool(fault_failed), defect="fault" if fault_failed else "none", fault_fs=(fault_failed[0][1] if fault_failed else None), fault_role=(fault_failed[0][2] if fault_failed else None)))
+                                ff_ = [x for x in fault_failed if ref in (x[3].get("out"), x[3].get("o"))] or fault_failed      # a half-made copy still carries its source's label
+                                viols.append(_v("C09.object_appeared", "after the restart object %s exists although the call that would have created it failed (or it was destroyed)" % ref, call="restart", op=kk, manifestation="object_appeared_after_restart", after_faulted_failure=bool(fault_failed), defect="fault" if fault_failed else "none", fault_fs=(ff_[0][1] if ff_ else None), fault_role=(ff_[0][2] if ff_ else None)))
             else:
                 cur.disk = dv
                 finish_snapshot(k)
